@@ -236,6 +236,9 @@ namespace occa {
           for (NULL; NULL; x += INC)
           ->
           for (x = xTile; x < (xTile + TILE); x += INC)
+
+          The in-block loop has to cover the whole distance the block loop
+          advances, which is TILE for ++/-- but ((TILE) * (INC)) for += / -=
         */
         auto &blockDecls = ((declarationStatement*) blockForSmnt.init)->declarations;
         token_t *declVarSource = blockDecls[0].variable().source;
@@ -254,7 +257,8 @@ namespace occa {
 
         expr blockIterator(declVarSource, blockIter);
         expr iterator(*oklForSmnt.iterator);
-        expr tileSizeExpr = &tileSize;
+        // TILE or ((TILE) * (INC)), taken from the block update set up above
+        expr blockStride = expr::parens(updateExpr.rightValue);
 
         initDecls.push_back(
           variableDeclaration(*oklForSmnt.iterator,
@@ -266,8 +270,8 @@ namespace occa {
         //       with either an [+=] or [-=] update operator
         expr bounds = expr::parens(
           (updateExpr.opType() & operatorType::addEq)
-          ? blockIterator + tileSizeExpr
-          : blockIterator - tileSizeExpr
+          ? blockIterator + blockStride
+          : blockIterator - blockStride
         );
 
         const binaryOperator_t &checkOp = (const binaryOperator_t&) checkExpr.op;
